@@ -55,6 +55,8 @@ func (ir *implRun) do(o Op) int {
 		ctx, cancel := context.WithCancel(context.Background())
 		cancel()
 		t.PubCtx(ir.bus, ctx, o.Val)
+	case KPubAny:
+		t.PubAny(ir.bus, context.Background(), o.Val)
 	}
 	return 0
 }
@@ -139,6 +141,13 @@ type searchCfg struct {
 	Alpha []Op
 	Depth int
 	Seeds [][]Op
+	// PairDepth: in every state reached by at most this many operations, every ordered
+	// pair of different operations that leave the model state unchanged (publishes that
+	// retire nothing) is executed as well. The search merges histories that reach the same
+	// registry, which is right for the model but blind to what an implementation may
+	// remember from one publish to the next (a route cached under the wrong key, say); the
+	// pairs put two such operations into one history.
+	PairDepth int
 }
 
 func histString(hh []Op) string {
@@ -187,6 +196,19 @@ func compare(c *h.Check, cfgName string, hist []Op) {
 		}
 		return
 	}
+}
+
+// closer is the closing sequence for a history that ends in model state m: unsubscribe the
+// first registered handler of type 0 (or a handler that is not registered, if there is
+// none), publish, clear type 0, publish, clear everything, publish both colliding types,
+// subscribe again, publish.
+func closer(m *Model) []Op {
+	u := Op{K: KUnsub, Ty: 0, Slot: 0}
+	if len(m.regs[0]) > 0 {
+		r := m.regs[0][0]
+		u = Op{K: KUnsub, Ty: 0, Slot: r.slot, O: evt.SubOpts{Ctx: r.o.Ctx}}
+	}
+	return []Op{u, pub(0, 2), {K: KClear, Ty: 0}, pub(0, 2), {K: KClearAll}, pub(0, 2), pub(1, 2), sub(0, 0, evt.SubOpts{}), pub(0, 2)}
 }
 
 func firstLine(s string) string {
@@ -241,7 +263,7 @@ func search(c *h.Check, sc searchCfg) {
 		}
 	}
 	idx := 0
-	states, transitions := int64(len(frontier)), int64(0)
+	states, transitions, pairs, closed := int64(len(frontier)), int64(0), int64(0), int64(0)
 	for depth := 1; depth <= sc.Depth && len(frontier) > 0; depth++ {
 		var next []node
 		for _, n := range frontier {
@@ -249,6 +271,7 @@ func search(c *h.Check, sc searchCfg) {
 			for _, o := range n.hist {
 				base.Step(o)
 			}
+			var loops []Op
 			for _, o := range sc.Alpha {
 				if !base.Enabled(o) {
 					continue
@@ -256,27 +279,56 @@ func search(c *h.Check, sc searchCfg) {
 				idx++
 				transitions++
 				hist := append(append(make([]Op, 0, len(n.hist)+1), n.hist...), o)
-				if c.Mine(idx) {
-					if c.TimeUp() {
-						c.Note(fmt.Sprintf("search %s stopped by the deadline at depth %d", sc.Name, depth))
-						return
-					}
-					compare(c, sc.Name, hist)
-					if idx%50021 == 0 {
-						c.Sample(map[string]any{"search": sc.Name, "history": histString(hist)})
-					}
-				}
 				m2 := base.Clone()
 				m2.Step(o)
 				if err := m2.Invariant(); err != "" {
 					vrt.MachineryFault("model invariant broken: %s after %s", err, histString(hist))
 				}
 				k := m2.Key()
+				if c.Mine(idx) {
+					if c.TimeUp() {
+						c.Note(fmt.Sprintf("search %s stopped by the deadline at depth %d", sc.Name, depth))
+						return
+					}
+					// A history that is not extended by the search (it reaches a registry seen
+					// before, or the depth limit) is closed with a fixed sequence of removals
+					// and publishes, compared step by step like everything else: the search
+					// merges histories on the model's registry, and what an implementation
+					// keeps besides the registry (counters, caches) shows only in what
+					// happens next.
+					run := hist
+					if seen[k] || depth == sc.Depth {
+						run = append(append(make([]Op, 0, len(hist)+8), hist...), closer(m2)...)
+						closed++
+					}
+					compare(c, sc.Name, run)
+					if idx%50021 == 0 {
+						c.Sample(map[string]any{"search": sc.Name, "history": histString(run)})
+					}
+				}
+				if k == base.Key() {
+					loops = append(loops, o)
+				}
 				if !seen[k] {
 					seen[k] = true
 					states++
 					if depth < sc.Depth {
 						next = append(next, node{hist})
+					}
+				}
+			}
+			if depth-1 <= sc.PairDepth && sc.PairDepth > 0 {
+				for _, a := range loops {
+					for _, b := range loops {
+						if a.String() == b.String() {
+							continue
+						}
+						idx++
+						transitions += 2
+						pairs++
+						if c.Mine(idx) {
+							compare(c, sc.Name, append(append(append(make([]Op, 0, len(n.hist)+2), n.hist...), a), b))
+						}
 					}
 				}
 			}
@@ -289,7 +341,11 @@ func search(c *h.Check, sc searchCfg) {
 		c.Count("traces_validated_against_impl", transitions)
 		c.Count("evaluations", transitions)
 		c.Count("nontrivial", states)
-		c.Note(fmt.Sprintf("search %s: alphabet %d, depth %d, states %d, transitions %d", sc.Name, len(sc.Alpha), sc.Depth, states, transitions))
+		c.Count("pairs_of_state_preserving_operations", pairs)
+	}
+	c.Count("histories_closed_with_the_closing_sequence", closed)
+	if c.Worker == 0 {
+		c.Note(fmt.Sprintf("search %s: alphabet %d, depth %d, states %d, transitions %d, pairs of state-preserving operations %d (in states of depth <= %d)", sc.Name, len(sc.Alpha), sc.Depth, states, transitions, pairs, sc.PairDepth))
 	}
 }
 
